@@ -274,7 +274,7 @@ class Exec:
 
     def safe(self, st, what, goal, note=''):
         self.safe_n += 1
-        self.oblig(st, f'safe.{what}.L{self.curline}.{self.safe_n}', goal, 'safety', {'C17'}, note)
+        self.oblig(st, f'safe.{what}.L{self.curline}.{self.safe_n}', goal, 'safety', set(getattr(self, 'safety_tags', None) or {'C17'}), note)
         # execution continues only if the operation was defined (assert-then-assume)
         if not z3.is_true(z3.simplify(goal)):
             st.assume(goal)
@@ -1315,6 +1315,28 @@ class Exec:
         q = self.tu.qual.get(mid)
         rd = self.tu.byid.get(mid, {'name': name, 'id': mid})
         return self.do_call(n, st, q or name, rd, objn, n['inner'][1:], method=name)
+
+    def scan_divisions(self, n, st):
+        """an expression whose value is not modelled (text being built for a message, ...): every integer division or remainder in it
+        still has to be defined — a safety obligation per divisor that can be evaluated"""
+        seen = getattr(self, '_scanned_div', None)
+        if seen is None:
+            seen = self._scanned_div = set()
+        for x in _walk_ast(n):
+            if x.get('kind') in ('BinaryOperator', 'CompoundAssignOperator') and x.get('opcode') in ('/', '%', '/=', '%=') and x.get('id') not in seen:
+                t = parse_type(x.get('type')) if x.get('type') else None
+                if t is None or t.kind != 'int':
+                    continue
+                seen.add(x.get('id'))
+                ln = line_of(x)
+                if ln:
+                    self.curline = ln
+                try:
+                    d = self.ev(x['inner'][1], st)
+                except ExtractionError:
+                    continue
+                if isinstance(d, IntV):
+                    self.safe(st, 'divzero', d.t != 0, 'integer division or remainder inside an expression that builds a message text')
 
     def ev_LambdaExpr(self, n, st):
         """a local lambda: its call operator is executed in place when the closure is called (see ev_CXXOperatorCallExpr).
